@@ -246,20 +246,31 @@ def cif_number(s):
 # ---------------------------------------------------------------------------------------------------------------
 # CML writer (Avogadro flavour)
 
-def write_cml(atoms, bonds, id_scheme, attr_order=None, extra_ws=False):
-    """atoms: [(id, element, x, y, z)], bonds: [(id1, id2, order)]; floats are written with repr (exact)."""
-    out = ['<?xml version="1.0" encoding="UTF-8"?>', '<molecule xmlns="http://www.xml-cml.org/schema">', " <atomArray>"]
-    for aid, el, x, y, z in atoms:
+def write_cml(atoms, bonds, id_scheme, attr_order=None, extra_ws=False, declaration=False, extras=False):
+    """atoms: [(id, element, x, y, z)], bonds: [(id1, id2, order)]; floats are written with repr (exact).  The flavour is the
+    one of the repository's own files (Avogadro export without namespace)."""
+    out = []
+    if declaration:
+        out.append('<?xml version="1.0" encoding="UTF-8"?>')
+    out += ['<molecule formalCharge="0">' if extras else "<molecule>", " <atomArray>"]
+    for k, (aid, el, x, y, z) in enumerate(atoms):
         attrs = [("id", aid), ("elementType", el), ("x3", repr(float(x))), ("y3", repr(float(y))), ("z3", repr(float(z)))]
         if attr_order:
             attrs = [attrs[i] for i in attr_order]
-        out.append("  <atom " + " ".join('%s="%s"' % kv for kv in attrs) + "/>")
+        if extras and k % 3 == 0:
+            attrs.insert(2, ("formalCharge", "1"))
+        out.append("  <atom " + " ".join('%s="%s"' % kv for kv in attrs) + ("/>" if k % 2 else " />"))
     out.append(" </atomArray>")
     if bonds is not None:
-        out.append(" <bondArray>")
-        for a, b, order in bonds:
-            sep = "  " if extra_ws else " "
-            out.append('  <bond atomRefs2="%s%s%s" order="%s"/>' % (a, sep, b, order))
-        out.append(" </bondArray>")
+        if len(bonds) == 0 and extra_ws:
+            out.append(" <bondArray/>")
+        else:
+            out.append(" <bondArray>")
+            for a, b, order in bonds:
+                sep = "  " if extra_ws else " "
+                out.append('  <bond atomRefs2="%s%s%s" order="%s"/>' % (a, sep, b, order))
+            out.append(" </bondArray>")
+    if extras:
+        out.append(" <dataMap />")
     out.append("</molecule>")
     return "\n".join(out) + "\n"
